@@ -123,6 +123,7 @@ def install():
     sys.dont_write_bytecode = True
     rt.install_pandas_patches()
     rt.install_rolling_patch()
+    rt.install_reduction_patches()
     # environment stub: logging is a no-op in symbolic workers (its %-formatting of
     # proxies would otherwise demand machine numbers); the replays log as usual
     import logging
